@@ -110,6 +110,13 @@ func New(opts ...Option) *Server {
 	for _, opt := range opts {
 		opt(cfg)
 	}
+	if len(cfg.enabledSec) == 0 {
+		// a server without any EnableSecurity option serves unsecured channels
+		cfg.enabledSec = []security{{
+			secPolicy: ua.SecurityPolicyURINone,
+			secMode:   ua.MessageSecurityModeNone,
+		}}
+	}
 	url := ""
 	if len(cfg.endpoints) != 0 {
 		url = cfg.endpoints[0]
@@ -266,11 +273,28 @@ func (s *Server) Start(ctx context.Context) error {
 	if s.cb == nil {
 		s.cb = newChannelBroker(s.cfg.logger)
 	}
+	s.cb.validateSecurity = s.validateSecurity
 
 	go s.acceptAndRegister(ctx, s.l)
 	go s.monitorConnections(ctx)
 
 	return nil
+}
+
+// validateSecurity accepts exactly the security policy and mode pairs the
+// server was configured with.
+func (s *Server) validateSecurity(policyURI string, mode ua.MessageSecurityMode) error {
+	for _, sec := range s.cfg.enabledSec {
+		if sec.secPolicy == policyURI && sec.secMode == mode {
+			return nil
+		}
+	}
+	for _, sec := range s.cfg.enabledSec {
+		if sec.secPolicy == policyURI {
+			return ua.StatusBadSecurityModeRejected
+		}
+	}
+	return ua.StatusBadSecurityPolicyRejected
 }
 
 func (s *Server) setServerState(state ua.ServerState) {
